@@ -5,10 +5,12 @@ QUICK_CFGS = ["8x1", "8x2", "8x3", "8x5", "16x1", "16x3", "32x2", "32x3", "64x1"
               # wider instantiations (136, 80, 192, 320, 512 bits): changes that only show with many digits
               "8x17", "16x5", "32x6", "64x5", "64x8",
               # more digit counts (changes keyed to a particular N or to blocks of 8 / 64 digits)
-              "8x12", "16x9", "64x12", "8x64"]
+              "8x12", "16x9", "64x12", "8x64",
+              # 56 bits: the only width strictly between the f64 mantissa (53) and 64
+              "8x7"]
 THOROUGH_CFGS = QUICK_CFGS + ["8x4", "8x8", "8x16", "8x40", "16x2", "16x4", "16x20",
                               "32x1", "32x4", "32x10", "64x4", "64x16", "64x128",
-                              "8x7", "8x9", "8x24", "16x12", "32x12", "64x9", "64x64"]
+                              "8x9", "8x24", "16x12", "32x12", "64x9", "64x64"]
 
 
 def cfgs(tier):
